@@ -607,6 +607,45 @@ func (t *tracer) elements(s ssa.Value, depth int) bool {
 			return true
 		}
 		return false
+	case *ssa.Parameter:
+		f := x.Parent()
+		idx := -1
+		for i, pr := range f.Params {
+			if pr == x {
+				idx = i
+			}
+		}
+		sites := t.p.Callers(f)
+		if idx < 0 || len(sites) == 0 || !t.p.private(f) {
+			return false
+		}
+		for _, site := range sites {
+			args := site.Instr.Common().Args
+			if idx >= len(args) || !t.elements(args[idx], depth+1) {
+				return false
+			}
+		}
+		return true
+	case *ssa.Extract:
+		call, ok := x.Tuple.(*ssa.Call)
+		if !ok {
+			return false
+		}
+		gs, complete := t.p.Callees(call)
+		if !complete || len(gs) == 0 {
+			return false
+		}
+		for _, g := range gs {
+			if !t.p.InRepo[g] {
+				return false
+			}
+			for _, r := range Returns(g) {
+				if x.Index >= len(r.Results) || !t.elements(ReturnResult(r, x.Index), depth+1) {
+					return false
+				}
+			}
+		}
+		return true
 	case *ssa.UnOp:
 		if x.Op == token.MUL {
 			if al, ok := x.X.(*ssa.Alloc); ok {
@@ -1460,4 +1499,245 @@ func (p *Prog) ElementValues(s ssa.Value) ([]ssa.Value, bool) {
 	t := &tracer{p: p, seen: map[ssa.Value]bool{}, rawElems: true}
 	ok := t.elements(s, 0)
 	return t.out, ok
+}
+
+// ---------------------------------------------------------------------------
+// Function-boundary insensitivity: helpers extracted from (or inlined into) a
+// function must not change a verdict. A *private helper* of f is an unexported
+// function (or closure) that is not used as a value and all of whose resolved
+// call sites lie in f's extended body.
+
+// SoleCaller returns the single resolved call site of f when f is private
+// (unexported or a closure, not referenced as a value) and has exactly one.
+func (p *Prog) SoleCaller(f *ssa.Function) (Site, bool) {
+	if f == nil || (f.Parent() == nil && exported(f)) || p.UsedAsValue(f) {
+		return Site{}, false
+	}
+	sites := p.Callers(f)
+	if len(sites) != 1 {
+		return Site{}, false
+	}
+	return sites[0], true
+}
+
+// private reports whether f can only be entered through its resolved call sites.
+func (p *Prog) private(f *ssa.Function) bool {
+	if f.Parent() == nil && exported(f) {
+		return false
+	}
+	if p.UsedAsValue(f) {
+		// closures handed to known synchronous callback takers are still private
+		return f.Parent() != nil && len(p.Callers(f)) == 0
+	}
+	return true
+}
+
+// Ext returns f together with its private helpers (transitively): functions
+// all of whose call sites are inside the set, and closures lexically nested in
+// a member of the set.
+func (p *Prog) Ext(f *ssa.Function) []*ssa.Function {
+	in := map[*ssa.Function]bool{f: true}
+	changed := true
+	for changed {
+		changed = false
+		for _, g := range p.Funcs {
+			if in[g] {
+				continue
+			}
+			// lexically nested closure of a member
+			if g.Parent() != nil && in[g.Parent()] {
+				in[g] = true
+				changed = true
+				continue
+			}
+			if !p.private(g) {
+				continue
+			}
+			sites := p.Callers(g)
+			if len(sites) == 0 {
+				continue
+			}
+			all := true
+			for _, s := range sites {
+				if !in[s.Caller] {
+					all = false
+				}
+			}
+			if all {
+				in[g] = true
+				changed = true
+			}
+		}
+	}
+	var out []*ssa.Function
+	for _, g := range p.Funcs {
+		if in[g] {
+			out = append(out, g)
+		}
+	}
+	return out
+}
+
+// InExt reports whether g belongs to Ext(f).
+func (p *Prog) InExt(f, g *ssa.Function) bool {
+	for _, x := range p.Ext(f) {
+		if x == g {
+			return true
+		}
+	}
+	return false
+}
+
+// ExtInstrs calls fn for every instruction of f and of its private helpers.
+func (p *Prog) ExtInstrs(f *ssa.Function, fn func(ssa.Instruction)) {
+	for _, g := range p.Ext(f) {
+		Instrs(g, fn)
+	}
+}
+
+// Contexts enumerates, for instruction ins, the chains of call sites through
+// which its function is entered from private callers, up to (and excluding)
+// functions for which stop returns true or that are not private. Each context
+// is the list of conditions known along the chain (innermost first). A function
+// entered from several sites yields several contexts.
+func (p *Prog) Contexts(ins ssa.Instruction, stop func(*ssa.Function) bool) [][]Cond {
+	var out [][]Cond
+	var walk func(at ssa.Instruction, acc []Cond, depth int)
+	walk = func(at ssa.Instruction, acc []Cond, depth int) {
+		acc = append(append([]Cond{}, acc...), CondsAt(at.Block())...)
+		f := at.Parent()
+		if depth > 5 || (stop != nil && stop(f)) || !p.private(f) {
+			out = append(out, acc)
+			return
+		}
+		sites := p.Callers(f)
+		if len(sites) == 0 {
+			// closure passed to an external synchronous function: continue at its creation point
+			if f.Parent() != nil {
+				var mk ssa.Instruction
+				Instrs(f.Parent(), func(i ssa.Instruction) {
+					if mc, ok := i.(*ssa.MakeClosure); ok && mc.Fn == f {
+						mk = mc
+					}
+				})
+				if mk != nil {
+					walk(mk, acc, depth+1)
+					return
+				}
+			}
+			out = append(out, acc)
+			return
+		}
+		for _, s := range sites {
+			walk(s.Instr, acc, depth+1)
+		}
+	}
+	walk(ins, nil, 0)
+	return out
+}
+
+// AllContexts reports whether pred holds for the conditions of every context of ins.
+func (p *Prog) AllContexts(ins ssa.Instruction, stop func(*ssa.Function) bool, pred func([]Cond) bool) bool {
+	cs := p.Contexts(ins, stop)
+	if len(cs) == 0 {
+		return false
+	}
+	for _, c := range cs {
+		if !pred(c) {
+			return false
+		}
+	}
+	return true
+}
+
+// IDominates: a executes before b on every path to b, looking through private
+// helpers: b may sit in a helper whose every call site is dominated by a, and
+// a may sit in a helper that b's function calls (a on every path through the
+// helper, the call dominating b).
+func (p *Prog) IDominates(a, b ssa.Instruction) bool {
+	return p.idom(a, b, 0)
+}
+
+func (p *Prog) idom(a, b ssa.Instruction, depth int) bool {
+	if depth > 5 {
+		return false
+	}
+	if a.Parent() == b.Parent() {
+		return InstrDominates(a, b)
+	}
+	// b in a private helper (or goroutine closure): every entry must be dominated by a
+	fb := b.Parent()
+	if p.private(fb) {
+		sites := p.Callers(fb)
+		if len(sites) > 0 {
+			all := true
+			for _, s := range sites {
+				if !(s.Instr == a || p.idom(a, s.Instr, depth+1)) {
+					all = false
+				}
+			}
+			if all {
+				return true
+			}
+		} else if fb.Parent() != nil {
+			var mk ssa.Instruction
+			Instrs(fb.Parent(), func(i ssa.Instruction) {
+				if mc, ok := i.(*ssa.MakeClosure); ok && mc.Fn == fb {
+					mk = mc
+				}
+			})
+			if mk != nil && p.idom(a, mk, depth+1) {
+				return true
+			}
+		}
+	}
+	// a in a private helper called (plainly) from b's function: a must execute on every path
+	// through the helper, and that call must dominate b
+	fa := a.Parent()
+	if p.private(fa) && AllReturnsDominatedBy(a) {
+		for _, s := range p.Callers(fa) {
+			if _, isCall := s.Instr.(*ssa.Call); !isCall {
+				continue
+			}
+			if p.idom(s.Instr, b, depth+1) {
+				return true
+			}
+		}
+	}
+	return false
+}
+
+// MustPass reports whether every path from the first instruction of f to a
+// (non-recover) return passes an instruction satisfying goal, where a plain
+// call of a private helper counts when the helper itself must pass goal.
+func (p *Prog) MustPass(f *ssa.Function, goal func(ssa.Instruction) bool, depth int) bool {
+	if len(f.Blocks) == 0 || len(f.Blocks[0].Instrs) == 0 || depth > 4 {
+		return false
+	}
+	g := p.LiftGoal(goal, depth)
+	first := f.Blocks[0].Instrs[0]
+	if g(first) {
+		return true
+	}
+	ok, _ := PathQuery{Goal: g}.MustReach(first)
+	return ok
+}
+
+// LiftGoal extends an instruction predicate to plain calls of private helpers
+// that must pass it.
+func (p *Prog) LiftGoal(goal func(ssa.Instruction) bool, depth int) func(ssa.Instruction) bool {
+	return func(i ssa.Instruction) bool {
+		if goal(i) {
+			return true
+		}
+		call, ok := i.(*ssa.Call)
+		if !ok {
+			return false
+		}
+		gs, _ := p.Callees(call)
+		if len(gs) != 1 || !p.InRepo[gs[0]] || !p.private(gs[0]) || gs[0] == i.Parent() {
+			return false
+		}
+		return p.MustPass(gs[0], goal, depth+1)
+	}
 }
